@@ -202,37 +202,43 @@ def _hist_ops(rng, wire, first_cut):
     return ops + tail + [["parse"]]
 
 
-def _gen_hist(rng):
-    who = rng.choice(["req", "resp", "resp"])
-    r = rng.random()
-    spec = None
-    if r < 0.7:
+def _gen_one_message(rng, who, n, allow_until):
+    """(wire, expect) of one message of a keep-alive sequence on one parser"""
+    kind = rng.choice(["chunked", "chunked", "length", "length", "none"] + (["until"] if allow_until else []))
+    if kind == "chunked":
         spec = _rand_spec(rng); spec["tail"] = ""
-        body = build_wire(spec)
-        wire = HEADS[who] + body
-        exp = {"body": h(b"".join(unh(c["data"]) for c in spec["chunks"])),
-               "trails": expected(spec)[-1]["trails"]}
-    elif r < 0.85:
+        head = (b"POST /m%d HTTP/1.1\r\nHost: h\r\nTransfer-Encoding: chunked\r\n\r\n" % n if who == "req"
+                else b"HTTP/1.1 200 OK\r\nTransfer-Encoding: chunked\r\n\r\n")
+        return head + build_wire(spec), {"body": h(b"".join(unh(c["data"]) for c in spec["chunks"])),
+                                         "trails": expected(spec)[-1]["trails"]}
+    if kind == "length":
+        data = _rand_data(rng) * rng.choice([1, 2])
+        head = (b"PUT /m%d HTTP/1.1\r\nContent-Length: %d\r\n\r\n" % (n, len(data)) if who == "req"
+                else b"HTTP/1.1 200 OK\r\nContent-Length: %d\r\n\r\n" % len(data))
+        return head + data, {"body": h(data), "trails": []}
+    if kind == "until":
         data = _rand_data(rng) * 2
-        if who == "req":
-            wire = b"PUT / HTTP/1.1\r\nContent-Length: %d\r\n\r\n" % len(data) + data
-        else:
-            wire = b"HTTP/1.1 200 OK\r\nContent-Length: %d\r\n\r\n" % len(data) + data
-        exp = {"body": h(data)}
-    else:
-        who = "resp"
-        data = _rand_data(rng) * 2
-        wire = b"HTTP/1.0 200 OK\r\n\r\n" + data
-        exp = {"body": h(data)}
-    expects = [exp]
-    if r < 0.85 and rng.random() < 0.2:      # a pipelined second message, complete
-        wire += (b"GET /2 HTTP/1.1\r\n\r\n" if who == "req" else b"HTTP/1.1 204 No\r\n\r\n")
-        expects.append({"body": ""})
-    head_len = wire.find(b"\r\n\r\n") + 4
-    first_cut = rng.choice([0, rng.randrange(1, head_len), head_len, rng.randrange(head_len, len(wire) + 1),
-                            rng.randrange(head_len, len(wire) + 1)])
-    case = {"kind": "hist", "who": who, "ops": _hist_ops(rng, wire, first_cut), "expect": expects}
-    if rng.random() < 0.15:                  # truncated: closure with the message incomplete (model comparison only)
+        return b"HTTP/1.0 200 OK\r\n\r\n" + data, {"body": h(data), "trails": []}
+    return (b"GET /m%d HTTP/1.1\r\n\r\n" % n if who == "req" else b"HTTP/1.1 204 No\r\n\r\n"), {"body": "", "trails": []}
+
+
+def _gen_hist(rng):
+    """1-4 messages back to back on ONE Requestant / Respondent (makeParser between them, as Server / Client do),
+    mixing chunked, content-length and body-less ones; close() somewhere in the tail"""
+    who = rng.choice(["req", "resp", "resp"])
+    nmsg = rng.choice([1, 2, 2, 3, 4])
+    wire, expects = b"", []
+    for n in range(nmsg):
+        w, e = _gen_one_message(rng, who, n, allow_until=(who == "resp" and n == nmsg - 1 and rng.random() < 0.3))
+        wire += w
+        expects.append(e)
+    first_cut = rng.choice([0, rng.randrange(1, len(wire)), rng.randrange(1, len(wire)), len(wire)])
+    ops = _hist_ops(rng, wire, first_cut)
+    if nmsg > 1:
+        # parseMessage forgets .closed when the next message starts; Client repeats close() every pass while cut off
+        ops += [["close"], ["parse"]]
+    case = {"kind": "hist", "who": who, "ops": ops, "expect": expects}
+    if rng.random() < 0.15:                  # truncated: closure with the last message incomplete (model comparison only)
         k = rng.randrange(1, len(wire))
         case = {"kind": "hist", "who": who, "ops": _hist_ops(rng, wire[:k], min(first_cut, k)), "expect": None}
     return case
@@ -259,6 +265,21 @@ def directed():
         out.append(_hist_case(who, [hd + body[:5], "parse", "close", "parse", "parse"], None))   # dry inside a chunk
         out.append(_hist_case(who, [hd, "parse", "close", "parse"], None))
         out.append(_hist_case(who, [hd[:20], "parse", "close", "parse"], None))
+    # one parser, several messages: earlier bodies/trailers must not show in later ones (seeded C17-5, finding D41)
+    seq = (b"POST /a HTTP/1.1\r\nContent-Length: 5\r\n\r\nfirst"
+           b"POST /b HTTP/1.1\r\nTransfer-Encoding: chunked\r\n\r\n6\r\nsecond\r\n0\r\nT: 1\r\n\r\n"
+           b"POST /c HTTP/1.1\r\nTransfer-Encoding: chunked\r\n\r\n5\r\nthird\r\n0\r\n\r\n"
+           b"GET /d HTTP/1.1\r\n\r\n")
+    exp4 = [{"body": h(b"first"), "trails": []}, {"body": h(b"second"), "trails": [[h(b"t"), h(b"1")]]},
+            {"body": h(b"third"), "trails": []}, {"body": "", "trails": []}]
+    out.append(_hist_case("req", [seq, "parse"], exp4))
+    out.append(_hist_case("req", [seq[:60], "parse", seq[60:150], "parse", seq[150:], "parse"], exp4))
+    rseq = (b"HTTP/1.1 200 OK\r\nTransfer-Encoding: chunked\r\n\r\n5\r\nfirst\r\n0\r\nT: 1\r\n\r\n"
+            b"HTTP/1.1 200 OK\r\nTransfer-Encoding: chunked\r\n\r\n6\r\nsecond\r\n0\r\n\r\n"
+            b"HTTP/1.1 200 OK\r\nContent-Length: 2\r\n\r\nok")
+    out.append(_hist_case("resp", [rseq[:70], "parse", rseq[70:], "parse"],
+                          [{"body": h(b"first"), "trails": [[h(b"t"), h(b"1")]]}, {"body": h(b"second"), "trails": []},
+                           {"body": h(b"ok"), "trails": []}]))
     out.append(_hist_case("resp", [b"HTTP/1.0 200 OK\r\n\r\nabc", "parse", b"def", "close", "parse"], [{"body": h(b"abcdef")}]))
     out.append(_hist_case("resp", [b"HTTP/1.1 200 OK\r\nContent-Length: 6\r\n\r\nabc", "parse", "close", b"def", "parse"], [{"body": h(b"abcdef")}]))
     out.append(_hist_case("req", [b"PUT / HTTP/1.1\r\nContent-Length: 6\r\n\r\nabc", "parse", "close", "parse"], None))
